@@ -25,7 +25,7 @@ OBLIGATIONS += [
         fp_restrict=["decode_buffer.function_pointer_call.1/lzstub"], **DICT),
 ]
 OBLIGATIONS += reuse("C03", r".")            # header decoders on all inputs
-OBLIGATIONS += reuse("C05", r"stream_|block_to")   # stream_decode from arbitrary states
+OBLIGATIONS += reuse("C05", r"stream_|block_to|block_body_rules|index_hash_exact")   # stream_decode from arbitrary states, Block body, Index verification
 OBLIGATIONS += reuse("C16", r".")            # .lz / .lzma / auto decoders
 OBLIGATIONS += reuse("C06", r"vli_decode")
 OBLIGATIONS += reuse("C15", r"_roundtrip$|_reference$", tiers=("thorough",))   # BCJ/delta kernels: no out-of-buffer access
@@ -53,3 +53,15 @@ OBLIGATIONS += [
         bounds_q="lc/lp/pb = 0/0/0; all table entries (symbolic index)"),
 ]
 OBLIGATIONS += reuse("C13", r"file_info_")   # file-info decoder: seeks stay inside the file, no endless loop
+OBLIGATIONS.append(Obligation(
+    name="microlzma_wrapper", src="microlzma.c", func="harness_microlzma",
+    units=[S + "common/common.c", S + "lzma/lzma_decoder.c"], hdefs=["lzma_next_filter_init=vstub_next_filter_init"],
+    qdefs=["PMAX=5", "CALLS=2"], tdefs=["PMAX=8", "CALLS=3"], qunwind=9, tunwind=12, timeout_q=400, timeout_t=3000,
+    fp_restrict=["harness_microlzma.function_pointer_call.1/microlzma_decode",
+                 "microlzma_decode.function_pointer_call.1/lz_code", "microlzma_decode.function_pointer_call.2/lz_code"],
+    functions=["microlzma_decoder_init", "microlzma_decode", "lzma_lzma_lclppb_decode"],
+    stubs=["LZMA1 decoder (lzma_next_filter_init + lzma.code): data is 0x00 + P bytes decoding to U bytes; arbitrary progress per call inside its limits; STREAM_END exactly when both complete; a decoder told the exact size has U equal to it"],
+    desc="MicroLZMA decoder wrapper: every first byte (inverted lc/lp/pb, invalid -> OPTIONS_ERROR), every comp_size / uncomp_size, exact and inexact, every slicing: decoder created with the given dictionary size, no end-marker permission, size passed iff exact, primed with one 0x00 byte; never reads beyond comp_size nor (inexact) writes beyond uncomp_size; STREAM_END / DATA_ERROR exactly per the size rules; documented codes only",
+    bounds_q="comp_size <= 8, LZMA data <= 5 bytes, output <= 5 bytes, 2 symbolic cut points + final call",
+    bounds_t="LZMA data / output <= 8 bytes, 3 cut points",
+    outside="the LZMA1 decoder itself"))
